@@ -48,7 +48,7 @@ M = [
  # ---- breaking: ConcatSource views (unit concat_views) ----
  ("concat_rope_two_children_delegated", "src/concat_source.rs", "    if children.len() == 1 {\n      children[0].rope()", "    if children.len() == 1 || children.len() == 2 {\n      children[0].rope()", {"C07": "V"}),
  ("concat_size_counts_text", "src/concat_source.rs", "    self.children().iter().map(|child| child.size()).sum()", "    self.children().iter().map(|child| child.source().len()).sum()", {"C07": "V"}),
- ("concat_buffer_from_source", "src/concat_source.rs", "        .map(|child| child.buffer())\n", "        .map(|child| Cow::Owned(child.source().as_bytes().to_vec()))\n", {"C07": "V"}),
+ ("concat_buffer_from_source", "src/concat_source.rs", "        .map(|child| child.buffer())\n", "        .map(|child| Cow::<[u8]>::Owned(child.source().as_bytes().to_vec()))\n", {"C07": "V"}),
  ("concat_rope_reversed", "src/concat_source.rs", "      for child in children {\n        let child_rope = child.rope();", "      for child in children.iter().rev() {\n        let child_rope = child.rope();", {"C07": "V"}),
  ("benign_concat_len_check", "src/concat_source.rs", "    if children.len() == 1 {\n      children[0].buffer()", "    if 1 == children.len() {\n      children[0].buffer()", {"C07": "P2"}),
  # ---- breaking: Rope observers (unit rope_obs) ----
